@@ -22,6 +22,8 @@ import warnings
 
 from harness import core
 from harness import lib_c02c14 as L
+from harness import lib_c02hist as HI
+from harness import lib_c02types as TY
 
 # ------------------------------------------------------------------ (a) ScopeSpace op sequences
 
@@ -343,6 +345,22 @@ def _case_worker(task):
     want_ort = not mode.endswith("-noort")
     mode = mode.replace("-noort", "")
     rng = random.Random(f"{seed}:{idx}")
+    if mode == "hist":
+        # a history of builds over the same Vars with different opset surroundings; every build is judged
+        case = HAND_HIST[idx - 2 * 10**6] if idx - 2 * 10**6 < len(HAND_HIST) else HI.gen_case(rng)
+        return {"mode": "hist", "case": case, "recs": HI.judge_history(case)}
+    if mode == "typed":
+        # a same-dtype argument whose shape differs from the declared type in exactly one way
+        k = idx - 3 * 10**6
+        grid = TY.all_cases() + TY.all_optseq_cases()
+        case = grid[k] if k < len(grid) else TY.gen_case(rng)
+        st, m = TY.build_any(case)
+        out = {"mode": "typed", "case": case, "status": st}
+        if st == "ok":
+            out["bad"] = TY.judge_built(m)
+        else:
+            out["err"] = m
+        return out
     with warnings.catch_warnings():
         warnings.simplefilter("ignore")
         feat = {"custom": True, "generic": True, "func_if": True, "ml": True, "inline_sibling_names": True,
@@ -370,6 +388,12 @@ def _case_worker(task):
             out["named"] = strip_ops(L.proto_to_named(m.graph))
             out["fnamed"] = [strip_ops(L.func_to_named(f)) for f in m.functions]
             out["walker"] = L.walk_named(L.proto_to_named(m.graph))
+            if mode == "oracle" and not out["bad"] and rng.random() < 0.3:
+                # the same program realised once and built several times over the SAME Vars, an Identity of another
+                # opset module on the first output (rising / falling / back to none)
+                tops = rng.choice([[None, 19], [None, 21, None], [21, None], [18, 21], [None, 20, 18], [17, 19, 21]])
+                out["hist_tops"] = tops
+                out["hist_recs"] = HI.spec_history(spec, tops, custom_keys=custom_keys(spec))
         if mode == "naming":
             try:
                 tree, real = extract_tree(spec)
@@ -377,6 +401,17 @@ def _case_worker(task):
             except Exception as e:  # noqa: BLE001
                 out["tree"], out["real"] = None, ("extract-failed", f"{type(e).__name__}: {e}")
         return out
+
+
+HAND_HIST = HI.HAND_CASES
+
+
+def hist_key(bad):
+    """the known finding first (duplicates only between sibling bodies under inlined-model names, every other
+    judge green), else history:<judge>"""
+    if all(b[0] == "walker" for b in bad) and classify(bad) == "inline:sibling-bodies-share-names":
+        return "inline:sibling-bodies-share-names"
+    return HI.classify(bad)
 
 
 def custom_keys(spec):
@@ -412,6 +447,204 @@ def classify(bad):
         if k in kinds:
             return k
     return "invalid"
+
+
+def judge_histories(ck, hist_results):
+    """Verdicts of the build histories: EVERY build of every history was judged in the worker."""
+    st = {"histories": len(hist_results), "builds": 0, "returned": 0, "raised": 0, "with_fresh_comparison": 0,
+          "fresh_raises_history_returns": 0, "no_reference_value": 0, "inline_items": 0, "top_versions": {}}
+    best = {}
+    for r in hist_results:
+        case = r["case"]
+        st["inline_items"] += sum(1 for it in case["items"] if it["k"] == "inline")
+        for rec in r["recs"]:
+            st["builds"] += 1
+            if rec["status"] == "err":
+                st["raised"] += 1
+                ck.count(None)
+                continue
+            st["returned"] += 1
+            st["with_fresh_comparison"] += int(rec.get("fresh_status") == "ok")
+            st["fresh_raises_history_returns"] += int(rec.get("fresh_status") == "err")
+            st["no_reference_value"] += int("no_reference" in rec)
+            ck.count(("hist", json.dumps(case, sort_keys=True), rec["bi"]) if rec["bi"] > 0 else None)
+            if rec["bad"]:
+                key = hist_key([tuple(b) for b in rec["bad"]])
+                cur = best.get(key)
+                if cur is None or len(json.dumps(case)) < len(json.dumps(cur[0])):
+                    best[key] = (case, rec)
+    for key, (case, rec) in list(best.items())[:4]:
+        def fails(c, key=key):
+            return any(x["bad"] and hist_key([tuple(b) for b in x["bad"]]) == key for x in HI.judge_history(c))
+
+        try:
+            small = HI.shrink(case, fails)
+            recs = [x for x in HI.judge_history(small) if x["bad"] and hist_key([tuple(b) for b in x["bad"]]) == key]
+            if recs:
+                case, rec = small, recs[0]
+        except Exception:  # noqa: BLE001
+            pass
+        ck.failure(key, f"build #{rec['bi']} of a history over the same Vars returned a model that fails: {rec['bad'][:2]}",
+                   {"hist": case, "build_index": rec["bi"]})
+    ck.cov["histories"] = st
+
+
+def corr_inline_check(ck, drv):
+    """tie H for Model/InlineCheck.lean (`accepts`, through it Types.subtype / Shape.le / Natural.le): the real
+    `inline(model)(args)` - raises its TypeError or returns - against the model on the whole shape-boundary grid
+    (positional, keyword, second input; same and different element types)."""
+    import importlib
+
+    import numpy as np
+    import spox
+    from translator import dtypes as DTT
+
+    classes = DTT.generate()["classes"]
+    op = importlib.import_module("spox.opset.ai.onnx.v17")
+
+    def ty_json(t):
+        if t is None:
+            return None
+        return [classes.index(t.dtype.type), None if t.shape is None else list(t.shape)]
+
+    reqs, reals, cases = [], [], []
+    skipped = 0
+    grid = [c for c in TY.all_cases() if c["site"] in ("inline_pos", "inline_kw", "inline_second")]
+    for c in grid:
+        for adt in ("f32", "f64") if str(c["tag"]).startswith("same") or c["site"] == "inline_pos" else ("f32",):
+            try:
+                args = {}
+                a = TY.make_arg(c["arg"][0], c["arg"][1], adt, op, args)
+                second = c["site"] == "inline_second"
+                m = TY.make_model(c["decl"], "f32", second=second)
+                decls = [[classes.index(np.float32), [2, 3]], [classes.index(np.float32), list(c["decl"])]] if second \
+                    else [[classes.index(np.float32), list(c["decl"])]]
+                if second:
+                    x0 = spox.argument(spox.Tensor(np.float32, (2, 3)))
+                    call_args, call_kw, atypes = (x0, a), {}, [x0.type, a.type]
+                elif c["site"] == "inline_kw":
+                    call_args, call_kw, atypes = (), {"a": a}, [a.type]
+                else:
+                    call_args, call_kw, atypes = (a,), {}, [a.type]
+            except Exception:  # noqa: BLE001 - the argument itself cannot be made (not the check under test)
+                skipped += 1
+                continue
+            try:
+                spox.inline(m)(*call_args, **call_kw)
+                real = True
+            except TypeError as e:
+                if "to inlined model got type" not in str(e):
+                    raise
+                real = False
+            reqs.append({"k": "inline_check", "decls": decls, "args": [ty_json(t) for t in atypes]})
+            reals.append(real)
+            cases.append((c, adt))
+    outs = drv.ask_many("C02", reqs)
+    mism = 0
+    for (c, adt), real, o in zip(cases, reals, outs):
+        ck.count(None)
+        if o.get("accept") is not real:
+            mism += 1
+            if mism <= 3:
+                ck.broken("correspondence", "C02 inline argument check (InlineCheck.accepts) vs real inline()",
+                          f"case={json.dumps(c)} arg_dtype={adt} model={o} real_accepts={real}")
+    ck.cov["inline_argument_check"] = {"calls": len(reqs), "accepted": sum(reals), "refused": len(reals) - sum(reals),
+                                       "mismatches": mism, "skipped": skipped}
+
+
+def corr_intro_req(ck, drv):
+    """tie H for Model/InternalReq.lean: the real `opset_req` of the `_Introduce` node behind `intros(...)` for every
+    combination of value kinds (tensor / sequence / optional / optional-of-sequence / untyped) up to length 3."""
+    import numpy as np
+    import spox
+    from spox import Optional, Sequence, Tensor, argument
+    from spox._internal_op import intros
+
+    f2 = Tensor(np.float32, (2,))
+    makers = {"tensor": lambda: argument(f2), "seq": lambda: argument(Sequence(f2)),
+              "optional": lambda: argument(Optional(f2)), "optional-of-seq": lambda: argument(Optional(Sequence(f2)))}
+    try:
+        from harness import lib_untyped
+
+        opaque = lib_untyped.make("untyped")
+        makers["untyped"] = lambda: opaque(argument(f2))
+    except Exception:  # noqa: BLE001 - no untyped values available: that kind is left out
+        pass
+    names = sorted(makers)
+    combos = [c for n in (1, 2, 3) for c in itertools.product(names, repeat=n)]
+    reqs, reals = [], []
+    for combo in combos:
+        outs = intros(*[makers[k]() for k in combo])
+        node = outs[0]._op
+        req = {d: v for d, v in node.opset_req}
+        reals.append(req.get("", req.get("ai.onnx")))
+        reqs.append({"k": "intro_req", "kinds": ["optional" if k.startswith("optional") else k for k in combo]})
+    outs = drv.ask_many("C02", reqs)
+    mism = 0
+    for combo, real, o in zip(combos, reals, outs):
+        ck.count(None)
+        if o.get("req") != real:
+            mism += 1
+            if mism <= 3:
+                ck.broken("correspondence", "C02 internal forwarding operator's opset requirement (InternalReq.introReq)",
+                          f"kinds={combo} model={o} real={real}")
+    ck.cov["intro_opset_req"] = {"combinations": len(combos), "kinds": names, "mismatches": mism}
+
+
+def judge_spec_histories(ck, rs):
+    st = {"programs": len(rs), "builds": 0, "returned": 0}
+    best = {}
+    for r in rs:
+        for rec in r["hist_recs"]:
+            st["builds"] += 1
+            if rec["status"] != "ok":
+                continue
+            st["returned"] += 1
+            ck.count(("spec-hist", json.dumps(r["spec"], sort_keys=True), rec["bi"]) if rec["bi"] > 0 else None)
+            if rec["bad"]:
+                key = hist_key([tuple(b) for b in rec["bad"]])
+                cur = best.get(key)
+                if cur is None or len(json.dumps(r["spec"])) < len(json.dumps(cur[0]["spec"])):
+                    best[key] = (r, rec)
+    for key, (r, rec) in list(best.items())[:3]:
+        ck.failure(key, f"build #{rec['bi']} (companions {r['hist_tops']}) over the Vars of ONE realisation of a program "
+                        f"returned a model that fails: {rec['bad'][:2]}",
+                   {"spec_hist": {"spec": r["spec"], "tops": r["hist_tops"]}})
+    ck.cov["program_histories"] = st
+
+
+def judge_typed(ck, typed_results):
+    """Verdicts of the shape-boundary calls: raised, or returned a model every judge accepts."""
+    st = {"cases": len(typed_results), "raised": 0, "returned_valid": 0, "by_site": {}, "well_typed_refused": 0}
+    best = {}
+    for r in typed_results:
+        case = r["case"]
+        site = st["by_site"].setdefault(case.get("site") or ("optseq:" + case["route"]), {"raised": 0, "returned": 0})
+        if r["status"] == "err":
+            st["raised"] += 1
+            site["raised"] += 1
+            st["well_typed_refused"] += int(str(case.get("tag", "")).startswith("same"))
+            ck.count(None)
+            continue
+        site["returned"] += 1
+        ck.count(("typed", json.dumps(case, sort_keys=True)))
+        if r["bad"]:
+            key = TY.classify(case, r["bad"])
+            cur = best.get(key)
+            if cur is None or len(json.dumps(case)) < len(json.dumps(cur[0])):
+                best[key] = (case, r["bad"])
+        else:
+            st["returned_valid"] += 1
+    for key, (case, bad) in list(best.items())[:4]:
+        if case.get("kind") == "optseq":
+            ck.failure(key, f"an Optional/Sequence-typed value ({case['make']}) routed through {case['route']} "
+                            f"(module v{case.get('ver')}, companion {case.get('comp')}) was built into a model that "
+                            f"fails: {bad[:2]}", {"typed": case})
+            continue
+        ck.failure(key, f"a call whose argument shape {case['arg']} does not fit the declared {case['decl']} "
+                        f"({case.get('tag')}, site {case['site']}) was built into a model that fails: {bad[:2]}",
+                   {"typed": case})
+    ck.cov["shape_boundary_calls"] = st
 
 
 def observe_final_check(specs):
@@ -550,9 +783,17 @@ def run(ck: core.Check):
     from translator import build_flags
 
     info = build_flags.generate()
+    try:  # tie G: from which opset on Identity accepts tensors / sequences / optionals (onnx.defs)
+        from translator import identity_types
+
+        ident = identity_types.generate()
+    except Exception as e:  # noqa: BLE001
+        ident = {"error": f"{type(e).__name__}: {e}"}
+        ck.broken("correspondence", "C02 Identity type support not extractable", ident["error"])
     ck.cov["generated"] = {k: info[k] for k in ("known_params", "n_calls", "full_check", "concrete_io")}
     ck.cov["generated"]["to_onnx_model_ir"] = json.dumps(info["to_onnx_model_ir"])
     ck.cov["generated"]["build_ir"] = json.dumps(info["build_ir"])
+    ck.cov["generated"]["identity_min_versions"] = ident
     ck.lean(["SpoxModel.Props.C02"], audit="SpoxModel.Audit.C02")
     if ck.thorough:
         ck.leanchecker(["SpoxModel.Props.C02"])
@@ -592,10 +833,32 @@ def run(ck: core.Check):
             ck.broken("correspondence", "C02 ScopeSpace not observable",
                       f"{type(e).__name__}: {e} (spox._scope.ScopeSpace attributes/signatures changed?)")
 
+    # (d) the argument check of inlined models on the shape-boundary grid
+    if drv is not None:
+        try:
+            with warnings.catch_warnings():
+                warnings.simplefilter("ignore")
+                corr_inline_check(ck, drv)
+        except Exception as e:  # noqa: BLE001
+            ck.broken("correspondence", "C02 inline argument check not observable", f"{type(e).__name__}: {e}")
+
+    # (e) opset requirement of the internal forwarding operator; Identity's type support from onnx.defs (tie G)
+    if drv is not None:
+        try:
+            with warnings.catch_warnings():
+                warnings.simplefilter("ignore")
+                corr_intro_req(ck, drv)
+        except Exception as e:  # noqa: BLE001
+            ck.broken("correspondence", "C02 internal operator opset_req not observable", f"{type(e).__name__}: {e}")
+
     # generated programs (oracle on all; naming correspondence on the 'naming' slice)
     n_oracle = pick(1600, 12000)
     n_naming = pick(500, 5000)
-    tasks = [(ck.seed, i, "oracle") for i in range(n_oracle)] + [(ck.seed, 10**6 + i, "naming") for i in range(n_naming)]
+    n_hist = pick(260, 1500)
+    n_typed = len(TY.all_cases()) + len(TY.all_optseq_cases()) + pick(200, 2000)
+    tasks = ([(ck.seed, i, "oracle") for i in range(n_oracle)] + [(ck.seed, 10**6 + i, "naming") for i in range(n_naming)]
+             + [(ck.seed, 2 * 10**6 + i, "hist") for i in range(n_hist)]
+             + [(ck.seed, 3 * 10**6 + i, "typed") for i in range(n_typed)])
     results = L.robust_map(case_worker, tasks, min(14, mp.cpu_count()), core.WORK)
     # a case on which the worker process died (C++ abort inside a third-party judge): judged again without
     # loading it into onnxruntime; recorded in the evidence
@@ -624,6 +887,12 @@ def run(ck: core.Check):
         ck.broken("correspondence", "C02 generated-program worker failed",
                   f"{len(crashes)} cases; first: {crashes[0]['crash']} {crashes[0].get('trace', '')[-400:]}")
     results = [r for r in results if not r.get("crash")]
+    hist_results = [r for r in results if r.get("mode") == "hist"]
+    typed_results = [r for r in results if r.get("mode") == "typed"]
+    results = [r for r in results if r.get("mode") not in ("hist", "typed")]
+    judge_histories(ck, hist_results)
+    judge_spec_histories(ck, [r for r in results if r.get("hist_recs")])
+    judge_typed(ck, typed_results)
     dist = {"returned": 0, "raised": {}, "if": 0, "loop": 0, "inline": 0, "call": 0, "custom_ops": 0, "max_depth": 0,
             "mixed_versions": 0, "drop_true": 0}
     best: dict[str, dict] = {}
@@ -763,6 +1032,34 @@ def run(ck: core.Check):
 
 def replay(ck: core.Check, doc) -> bool:
     case = doc.get("case") or {}
+    if case.get("hist") is not None:
+        failing = False
+        for rec in HI.judge_history(case["hist"]):
+            if rec["status"] == "err":
+                print(f"build #{rec['bi']} raised:", rec["err"])
+            for k, d in rec["bad"]:
+                print(f"build #{rec['bi']}: {k}: {d}")
+            failing |= bool(rec["bad"])
+        return failing
+    if case.get("spec_hist") is not None:
+        sh = case["spec_hist"]
+        failing = False
+        for rec in HI.spec_history(sh["spec"], sh["tops"], custom_keys=custom_keys(sh["spec"])):
+            if rec["status"] == "err":
+                print(f"build #{rec['bi']} raised:", rec["err"])
+            for k, d in rec["bad"]:
+                print(f"build #{rec['bi']}: {k}: {d}")
+            failing |= bool(rec["bad"])
+        return failing
+    if case.get("typed") is not None:
+        st, m = TY.build_any(case["typed"])
+        if st == "err":
+            print("build raised:", m)
+            return False
+        bad = TY.judge_built(m)
+        for k, d in bad:
+            print(f"{k}: {d}")
+        return bool(bad)
     spec = case.get("spec")
     if spec is None:
         print("replay file names broken obligations only:", [b["name"] for b in doc.get("broken", [])])
